@@ -18,6 +18,15 @@ func parseStatusKey(key string) (string, string, string, string) {
 	return parts[l-4], parts[l-3], parts[l-2], parts[l-1]
 }
 
+// globEscaper escapes the glob metacharacters of redis key patterns (SCAN MATCH, PSUBSCRIBE)
+var globEscaper = strings.NewReplacer(`\`, `\\`, `*`, `\*`, `?`, `\?`, `[`, `\[`)
+
+// escapeGlob makes a literal key part safe to embed in a key pattern:
+// names are user supplied and may contain '*', '?', '[' or a backslash
+func escapeGlob(s string) string {
+	return globEscaper.Replace(s)
+}
+
 // getByKeyPattern gets key-value pairs that key matches pattern
 func (r *Rediaron) getByKeyPattern(ctx context.Context, pattern string, limit int64) (map[string]string, error) {
 	var (
